@@ -111,6 +111,144 @@ var stmtSeen sync.Map // rendered texts of grammar statements evaluated
 
 var plainPool = sync.Pool{New: func() interface{} { return newPlain() }}
 
+
+// ---- part 3: pumping (repetition counts far beyond the token bounds of parts 1 and 2) ---------------
+//
+// Every list production of the grammar repeated n = 2^k times in one statement (the statement is derivable
+// for every n, so it must be accepted), and n rejected statements followed by an accepted one on one parser
+// (the verdict and the extracted meaning must equal those on a fresh parser).
+
+type pumpCase struct {
+	Kind string `json:"kind"` // a list production, or "history"
+	N    int    `json:"n"`
+	A    string `json:"a,omitempty"`    // history: the rejected statement that is repeated
+	Then string `json:"then,omitempty"` // history: the statement parsed afterwards
+}
+
+var pumpKinds = []string{"create-graphs", "insert-triples", "select-bindings", "where-clauses", "from-graphs", "group-by", "order-by", "having-and", "construct-facts", "reify-pairs"}
+
+func pumped(kind string, n int) (text string, semanticOK bool) {
+	var xs []string
+	item := func(f string) string {
+		xs = xs[:0]
+		for i := 0; i < n; i++ {
+			xs = append(xs, fmt.Sprintf(f, i))
+		}
+		return ""
+	}
+	switch kind {
+	case "create-graphs":
+		item("?g%d")
+		return "create graph " + strings.Join(xs, ", ") + ";", true
+	case "insert-triples":
+		item(`/u<s%d> "p"@[] /u<o>`)
+		return "insert data into ?a {" + strings.Join(xs, " . ") + "};", true
+	case "select-bindings":
+		item("?s as ?x%d")
+		return "select " + strings.Join(xs, ", ") + " from ?a where {?s ?p ?o};", true
+	case "where-clauses":
+		item(`?s "p%d"@[] ?o`)
+		return "select ?s from ?a where {" + strings.Join(xs, " . ") + "};", true
+	case "from-graphs":
+		item("?g%d")
+		return "select ?s from " + strings.Join(xs, ", ") + " where {?s ?p ?o};", true
+	case "group-by":
+		item("?b%d")
+		return "select ?s from ?a where {?s ?p ?o} group by " + strings.Join(xs, ", ") + ";", false
+	case "order-by":
+		item("?b%d asc")
+		return "select ?s from ?a where {?s ?p ?o} order by " + strings.Join(xs, ", ") + ";", false
+	case "having-and":
+		item("(?s = ?o%d)")
+		return "select ?s from ?a where {?s ?p ?o} having " + strings.Join(xs, " and ") + ";", false
+	case "construct-facts":
+		item(`?s "q%d"@[] ?o`)
+		return "construct {" + strings.Join(xs, " . ") + "} into ?b from ?a where {?s ?p ?o};", true
+	case "reify-pairs":
+		item(`"q%d"@[] ?o`)
+		return `construct {?s "q"@[] ?o ; ` + strings.Join(xs, " ; ") + "} into ?b from ?a where {?s ?p ?o};", true
+	}
+	return "", false
+}
+
+var pumpRejected = []string{";", "select from ?a where {?s ?p ?o};", "create graph ;", "show;", "select ?s from ?a where {?s ?p};", "select ?zz from ?a where {?s ?p ?o};", "create graph ?a ?b;"}
+var pumpThen = []string{"show graphs;", `select ?s from ?a where {?s "p"@[] ?o};`, `insert data into ?a {/u<s> "p"@[] /u<o>};`}
+
+func checkPump(c pumpCase) (ok bool, shape, detail string) {
+	if c.Kind == "history" {
+		want := observe(newSemantic(), c.Then)
+		p := newSemantic()
+		for i := 0; i < c.N; i++ {
+			parseOn(p, c.A)
+		}
+		got := observe(p, c.Then)
+		switch {
+		case got.V.Panic != "":
+			return false, "statement-after-rejected-ones-panics", fmt.Sprintf("after %d times %q the statement %q: %s", c.N, c.A, c.Then, got.V)
+		case got.V.Accepted != want.V.Accepted:
+			return false, "verdict-changes-after-rejected-statements", fmt.Sprintf("after %d times %q the statement %q is %s; on a fresh parser it is %s", c.N, c.A, c.Then, got.V, want.V)
+		case got.Dump != want.Dump:
+			return false, "meaning-changes-after-rejected-statements", fmt.Sprintf("after %d times %q the statement %q yields\n%s", c.N, c.A, c.Then, diffLines(got.Dump, want.Dump))
+		}
+		return true, "", ""
+	}
+	text, sem := pumped(c.Kind, c.N)
+	v, _ := parseOn(newPlain(), text)
+	if v.Panic != "" {
+		return false, "derivable-statement-panics", fmt.Sprintf("%s with %d elements: %s", c.Kind, c.N, v)
+	}
+	if !v.Accepted {
+		return false, "parser-rejects-a-derivable-statement", fmt.Sprintf("%s with %d elements is derivable (the list production repeats) but the BQL() parser says: %s", c.Kind, c.N, v)
+	}
+	if sem {
+		if v, _ := parseOn(newSemantic(), text); !v.Accepted {
+			return false, "semantic-parser-rejects-a-long-list", fmt.Sprintf("%s with %d elements: the SemanticBQL() parser says: %s (the same statement with 2 elements is accepted)", c.Kind, c.N, v)
+		}
+	}
+	return true, "", ""
+}
+
+func pumpPass(r *common.Run) int {
+	var cases []pumpCase
+	maxN := r.Pick(4096, 16384)
+	for n := 1; n <= maxN; n *= 2 {
+		for _, k := range pumpKinds {
+			cases = append(cases, pumpCase{Kind: k, N: n})
+		}
+		for _, a := range pumpRejected {
+			for _, b := range pumpThen {
+				cases = append(cases, pumpCase{Kind: "history", N: n, A: a, Then: b})
+			}
+		}
+	}
+	// the 2-element forms must be accepted by the semantic parser where pumped() says so: otherwise the
+	// pumped statement itself is malformed (machinery error, not a finding)
+	for _, k := range pumpKinds {
+		text, sem := pumped(k, 2)
+		if v, _ := parseOn(newPlain(), text); !v.Accepted {
+			common.Machinery("pumped statement %s is not accepted with 2 elements: %s: %s", k, text, v)
+		}
+		if sem {
+			if v, _ := parseOn(newSemantic(), text); !v.Accepted {
+				common.Machinery("pumped statement %s is not accepted by the semantic parser with 2 elements: %s: %s", k, text, v)
+			}
+		}
+	}
+	common.ParallelFor(len(cases), func(i int) {
+		c := cases[i]
+		if ok, shape, d := checkPump(c); !ok {
+			class := "pumped:" + c.Kind
+			if c.Kind == "history" {
+				class = "pumped-history:" + histClass(c.A, c.Then)
+			}
+			r.Fail(common.Failure{Check: "pump", Class: class, Shape: shape, Case: c, Detail: d})
+		}
+	})
+	r.Set("pump_max_repetitions", maxN)
+	r.Set("pump_cases", len(cases))
+	return len(cases)
+}
+
 // ---- part 1: acceptance against the Recogniser --------------------------------------
 
 type seqCase struct {
@@ -568,6 +706,17 @@ func main() {
 		}
 		return true, fmt.Sprintf("%q: parser and recogniser agree (accepted=%v)", c.Text, o.accepted)
 	})
+	r.Replayer("pump", func(raw json.RawMessage) (bool, string) {
+		var c pumpCase
+		if err := json.Unmarshal(raw, &c); err != nil {
+			common.Machinery("bad case: %v", err)
+		}
+		ok, shape, d := checkPump(c)
+		if ok {
+			return true, fmt.Sprintf("%s n=%d behaves as on a fresh parser / is accepted", c.Kind, c.N)
+		}
+		return false, shape + ": " + d
+	})
 	r.Replayer("history", func(raw json.RawMessage) (bool, string) {
 		var c histCase
 		json.Unmarshal(raw, &c)
@@ -859,15 +1008,16 @@ func main() {
 		triples = len(trs)
 	}
 	r.Set("stateless_triples", triples)
+	pumps := pumpPass(r)
 
 	r.Set("states", int(viableTotal)+1)
 	r.Set("transitions", int(evaluated))
-	r.Set("traces_validated_against_impl", int(rendered)+int(mutRendered)+int(sentRendered)+int(pairs)+triples)
-	r.Set("evaluations", int(evaluated)+int(mutEval)+len(sentences)+int(pairs)+triples)
+	r.Set("traces_validated_against_impl", int(rendered)+int(mutRendered)+int(sentRendered)+int(pairs)+triples+pumps)
+	r.Set("evaluations", int(evaluated)+int(mutEval)+len(sentences)+int(pairs)+triples+pumps)
 	nStmt := 0
 	stmtSeen.Range(func(_, _ interface{}) bool { nStmt++; return true })
 	r.Set("distinct_nontrivial", nStmt)
-	r.Set("rule", fmt.Sprintf("BFS: every viable token prefix of length < %d extended by each of the %d token kinds; statements: every derivable statement of at most %d tokens, and for those of at most %d tokens every single-token deletion, insertion and substitution; statelessness: every token prefix of every corpus statement, every corpus statement and %d semantically rejected statements, each followed by each of %d corpus statements on one SemanticBQL parser; distinct_nontrivial = distinct token sequences evaluated that are grammar statements (accept side)", completed+1, len(allKind), sentLen, mutLen, len(extraFirst), len(usable)))
+	r.Set("rule", fmt.Sprintf("BFS: every viable token prefix of length < %d extended by each of the %d token kinds; statements: every derivable statement of at most %d tokens, and for those of at most %d tokens every single-token deletion, insertion and substitution; statelessness: every token prefix of every corpus statement, every corpus statement and %d semantically rejected statements, each followed by each of %d corpus statements on one SemanticBQL parser; pumping: every list production with 2^k elements and 2^k rejected statements before an accepted one; distinct_nontrivial = distinct token sequences evaluated that are grammar statements (accept side)", completed+1, len(allKind), sentLen, mutLen, len(extraFirst), len(usable)))
 	r.Sample(seqCase{Tokens: recog.KindNames(sentences[len(sentences)/2]), Text: func() string { s, _ := recog.Render(sentences[len(sentences)/2]); return s }(), Origin: "sentence"})
 	r.Sample(histCase{History: []string{firsts[len(firsts)/3]}, Then: usable[6%len(usable)]})
 	r.Sample(histCase{History: []string{extraFirst[0]}, Then: usable[5%len(usable)]})
